@@ -141,6 +141,7 @@ inductive Pat where
   | concurrent                      -- bare `Concurrent`
   | taskCancelled | taskClosed | streamClosed | resUnavailable | intervalExceeded | scopeClosed
   | anyException                    -- `except Exception`
+  | cancelTask                      -- `except CancelTask`: the payload reacts to (or swallows) its own cancellation
   deriving Inhabited, BEq, Repr
 
 inductive Stmt (τ : Type) where
@@ -452,6 +453,7 @@ inductive Frame (τ : Type) where
   | qGetPop (q : Name)
   /-- statement-level continuation: log the received value -/
   | gotValue
+  | cGotValue (c : Name) (key : Nat)            -- `await channel` returned: the subscription `key` got its message
   /-- `async for x in queue` (Queue.__aiter__): waiting for the next item / running the body -/
   | qIterNext (q : Name) (remaining : Nat) (body : List (Stmt τ))
   | qIterGot (q : Name) (remaining : Nat) (body : List (Stmt τ))
@@ -460,6 +462,7 @@ inductive Frame (τ : Type) where
   /-- `async for x in channel` (Channel.__aiter__) -/
   | cIterLoop (c : Name) (key : Nat) (remaining : Nat) (body : List (Stmt τ))
   | cIterWait (c : Name) (key : Nat) (remaining : Nat) (body : List (Stmt τ))
+  | cIterNext (c : Name) (key : Nat) (remaining : Nat)   -- the loop body ended: the iteration asks for the next message
   /-- `BorrowedResources.__aenter__`: waiting for availability; after `__remove_resources__`;
   after `__insert_resources__`; body marker; `__aexit__` after its first step -/
   | borrowWait (r : Name) (b : Name) (body : List (Stmt τ))
